@@ -628,6 +628,9 @@ def _ext_call(ev, dotted, args, kwargs, fr, node):
         # any other algorithm (ripemd160, md4, ...) comes from the OpenSSL build and may be missing: ValueError
         return T.phi(T.raw_op('BOOL', T.sym('ENV:hashlib provides %s' % (args[0][1] if T.is_const(args[0]) else '?'), type='bool')),
                      obj, T.raise_('ValueError'))
+    if dotted in ('hmac.compare_digest', 'secrets.compare_digest') and len(args) == 2 and not kwargs:
+        # constant-time equality of two byte strings (or ASCII texts): the same truth value as ==
+        return T.eq(args[0], args[1])
     if dotted == 'hmac.new':
         a = _kw(args, kwargs, ['key', 'msg', 'digestmod'])
         return T.raw_op('HMACOBJ', a['key'], a['msg'] if a['msg'] is not None else T.const(b''),
